@@ -23,11 +23,11 @@ static std::vector<Op> buildAlphabet(const std::string& name, Limits& L, const s
     auto pv = [&](const std::string& id) -> const PVal& { for (auto& m : menu) if (m.id == id) return m; fprintf(stderr, "no pval %s\n", id.c_str()); exit(2); };
     bool thorough = tier == "thorough";
     if (name == "mut") {            // C05 / C10 / C13: the full mutator alphabet
-        L.maxFrames = 3; L.maxPoints = 3; L.maxChans = 2;
+        L.maxFrames = 3; L.maxPoints = 3; L.maxChans = 2; L.noColumnsOnGaps = true; L.emptyFrameOnlyWhenBlank = true; L.documentedDevsOnly = true; L.noDuplicateDeclarations = true; L.noRateEditWithData = true;
         for (auto n : {"A", "B", "A "}) A.push_back(opPoint(n, L));
         for (auto n : {"a", "b"}) A.push_back(opAnalog(n, L));
-        for (float r : {0.f, 50.f, 100.f, 23.976f}) A.push_back(opRate("POINT", r));
-        for (float r : {0.f, 100.f, 200.f, 15.f * 23.976f}) A.push_back(opRate("ANALOG", r));
+        for (float r : {0.f, 50.f, 100.f, 23.976f}) A.push_back(opRate("POINT", r, L));
+        for (float r : {0.f, 100.f, 200.f, 15.f * 23.976f}) A.push_back(opRate("ANALOG", r, L));
         A.push_back(opParam("NEWG", "X", pv("i3"), "d0", false, L));
         A.push_back(opParam("POINT", "X", pv("s2"), "d1", true, L));
         for (auto t : {"app", "0", "last", "n", "n+1"}) A.push_back(opFrame("ok", t, 0, L));
@@ -42,10 +42,10 @@ static std::vector<Op> buildAlphabet(const std::string& name, Limits& L, const s
         A.push_back(opLock("NOPE", true)); A.push_back(opLock("NOPE", false));
         A.push_back(opReload());
     } else if (name == "frames") {  // C06 / C08: frame targets, contents, caller registers, in-place edits
-        L.maxFrames = thorough ? 5 : 4; L.maxPoints = 3; L.maxChans = 2;
+        L.maxFrames = thorough ? 5 : 4; L.maxPoints = 3; L.maxChans = 2; L.noRateEditWithData = true;
         for (auto n : {"A", "B"}) A.push_back(opPoint(n, L));
         A.push_back(opAnalog("a", L));
-        A.push_back(opRate("POINT", 100.f)); A.push_back(opRate("ANALOG", 200.f));
+        A.push_back(opRate("POINT", 100.f, L)); A.push_back(opRate("ANALOG", 200.f, L));
         for (auto t : {"app", "0", "1", "last", "n", "n+1", "n+2"}) for (int vs : {0, 2}) A.push_back(opFrame("ok", t, vs, L));
         A.push_back(opFrame("ok", "app", 1, L));
         A.push_back(opColPoint("ok", 1, L)); A.push_back(opColPoint("ok2", 2, L)); A.push_back(opColAnalog("ok", 1, L)); A.push_back(opColAnalog("ok2", 2, L));
@@ -76,7 +76,7 @@ static std::vector<Op> buildAlphabet(const std::string& name, Limits& L, const s
         A.push_back(opParamBad("NEWB", true, false)); A.push_back(opParamBad("POINT", false, true)); A.push_back(opParamBad("POINT", true, false));
         A.push_back(opPoint("A", L)); A.push_back(opRate("POINT", 100.f)); A.push_back(opFrame("ok", "app", 0, L));
     } else if (name == "lookup") {  // C11: containers of every size 0..N
-        L.maxFrames = thorough ? 3 : 2; L.maxPoints = thorough ? 3 : 2; L.maxChans = 2; L.maxGroups = 5;
+        L.maxFrames = thorough ? 3 : 2; L.maxPoints = thorough ? 3 : 2; L.maxChans = 2; L.maxGroups = 5; L.noColumnsOnGaps = true;
         for (auto n : {"A", "B", "A ", "b"}) A.push_back(opPoint(n, L));
         for (auto n : {"a", "a ", "B"}) A.push_back(opAnalog(n, L));
         A.push_back(opRate("POINT", 100.f)); A.push_back(opRate("ANALOG", 200.f)); A.push_back(opRate("ANALOG", 100.f));
@@ -85,11 +85,11 @@ static std::vector<Op> buildAlphabet(const std::string& name, Limits& L, const s
         A.push_back(opColPoint("ok", 1, L)); A.push_back(opColAnalog("ok", 1, L));
         A.push_back(opReload());
     } else if (name == "build") {   // C01 / C03 / C14: construction histories
-        L.maxFrames = thorough ? 3 : 2; L.maxPoints = 3; L.maxChans = 2; L.maxGroups = 5; L.maxParamsPerGroup = 11;
+        L.maxFrames = thorough ? 3 : 2; L.maxPoints = 3; L.maxChans = 2; L.maxGroups = 5; L.maxParamsPerGroup = 11; L.noColumnsOnGaps = true;
         for (auto n : {"A", "B", "C"}) A.push_back(opPoint(n, L));
         for (auto n : {"a", "b"}) A.push_back(opAnalog(n, L));
-        for (float r : {50.f, 100.f}) A.push_back(opRate("POINT", r));
-        for (float r : {100.f, 200.f, 400.f}) A.push_back(opRate("ANALOG", r));
+        for (float r : {50.f, 100.f}) A.push_back(opRate("POINT", r, L));
+        for (float r : {100.f, 200.f, 400.f}) A.push_back(opRate("ANALOG", r, L));
         for (auto& m : menu) A.push_back(opParam("NEWG", "X", m, "d0", false, L));
         A.push_back(opParam("NEWG", "Y", pv("i22"), "d20", true, L)); A.push_back(opParam("POINT", "X", pv("s2"), "d127", false, L));
         A.push_back(opParam("G2", "Z", pv("f23"), "d1", false, L)); A.push_back(opParam("ANALOG", "Q", pv("i3"), "d0", true, L));
